@@ -659,6 +659,10 @@ Proof.
   now rewrite (dv_0 S L dv2 dv2_add), (dv_0 S L dv1 dv1_add).
 Qed.
 
+Lemma alookup_map_values_gen {Kt V W} (eqb : Kt -> Kt -> bool) (f : V -> W) k (d : list (Kt * V)) :
+  alookup eqb k (map (fun kv => (fst kv, f (snd kv))) d) = omap f (alookup eqb k d).
+Proof. induction d as [|[k' v] d IH]; simpl; auto. destruct (eqb k k'); auto. Qed.
+
 Theorem order2_step_le v1 v2 n i ds : (v1 <= v2)%nat ->
   instr_ok12 v1 v2 (nonempty (d_p2 ds)) i -> inv12 v1 v2 n ds -> inv12 v1 v2 (instr_n S i n) (dstep i ds).
 Proof.
@@ -671,10 +675,50 @@ Proof.
     + destruct Hi12 as (Hwf & Hd2 & Hc12 & Hx). apply step2_nonshift; auto. now rewrite El.
     + destruct Hi12 as (Hwf & Hd2 & Hc12 & Hx). apply step2_nonshift; auto. now rewrite El.
     + apply (step2_shift v1 v2 n o ds d nm); auto. apply I1.
-  - destruct I1 as (Hs & _). destruct I12 as (Hq & Hw).
-    destruct o as [| | | | |p r|]; try contradiction; [destruct r; [contradiction|]|].
-    + unfold inv2. cbn [d_main d_p2 op_n apply]. split; auto.
-    + exact (conj Hq Hw).
+  - destruct I1 as (Hs & He1 & _). destruct I2 as (_ & He2 & _). destruct I12 as (Hq & Hw).
+    assert (D1 : dT1 t0 = t0) by apply (dT_t0 S L dv1 dv1_add).
+    assert (D2 : dT2 t0 = t0) by apply (dT_t0 S L dv2 dv2_add).
+    assert (Z1 : dv1 k0 = k0) by apply (dv_0 S L dv1 dv1_add).
+    assert (Z2 : dv2 k0 = k0) by apply (dv_0 S L dv2 dv2_add).
+    unfold inv2. cbn [d_main d_p2]. unfold map_partials. rewrite alookup_map_values_gen.
+    destruct o as [| | | | |p r|]; try contradiction; cbn [op_n Views.op_n apply apply_partial instr_ok] in *.
+    + (* SPOILER *)
+      split.
+      * destruct (alookup pair_eqb (Pair v1 v2) (d_p2 ds)) as [q|]; cbn [omap opshaped apply_partial apply]; auto.
+        destruct Hq as [Hq1 Hq2]. split; [now apply spoil_shaped|exact Hq2].
+      * intros k. rewrite get_spoil. specialize (Hw k).
+        destruct (alookup pair_eqb (Pair v1 v2) (d_p2 ds)) as [q|]; cbn [omap oget apply_partial apply] in *.
+        -- rewrite get_spoil, Hw. unfold dT; cbn [fp fm fz]. now rewrite Z2, Z1.
+        -- unfold dT in *; cbn [fp fm fz] in *. unfold t0 in *. injection Hw as _ _ H3. now rewrite Z2, Z1, <- H3.
+    + (* RESET *)
+      assert (E : forall k, dT1 (dT2 (if k =? 0 then gete (d_main ds) 0 else t0)) = t0).
+      { intros k. destruct (k =? 0); [now rewrite He2|now rewrite D2]. }
+      split.
+      * destruct (alookup pair_eqb (Pair v1 v2) (d_p2 ds)) as [q|]; cbn [omap opshaped apply_partial apply]; auto.
+        destruct Hq as [Hq1 Hq2]. split; [now apply (reset_shaped S q n)|].
+        intros k. rewrite (gete_reset S _ n k Hq1). destruct (k =? 0); auto.
+      * intros k. rewrite (get_reset S _ n k Hs), E.
+        destruct (alookup pair_eqb (Pair v1 v2) (d_p2 ds)) as [q|]; cbn [omap oget opshaped apply_partial apply] in *; auto.
+        destruct Hq as [Hq1 Hq2]. rewrite (get_reset S _ n k Hq1). destruct (k =? 0); auto.
+    + (* PD: the density is a constant for both derivations *)
+      destruct r.
+      * split.
+        -- destruct (alookup pair_eqb (Pair v1 v2) (d_p2 ds)) as [q|]; cbn [omap opshaped apply_partial]; auto.
+           destruct Hq as [[Hq1 Hq3] Hq2]. split; [split; cbn [st equ]; [now rewrite map_length|exact Hq3]|exact Hq2].
+        -- intros k. rewrite (get_pd S p true _ n k Hs).
+           assert (E : dT1 (dT2 (if k =? 0 then mk3 k0 k0 p else t0)) = t0).
+           { destruct (k =? 0); [|now rewrite D2]. unfold dT; cbn [fp fm fz]. now rewrite Hi2, Z2, Z1. }
+           rewrite E. destruct (alookup pair_eqb (Pair v1 v2) (d_p2 ds)) as [q|]; cbn [omap oget apply_partial]; auto.
+           unfold Views.get. cbn [st].
+           rewrite (getZ_map_st S q (fun _ => t0) k eq_refl). reflexivity.
+      * split.
+        -- destruct (alookup pair_eqb (Pair v1 v2) (d_p2 ds)) as [q|]; cbn [omap opshaped apply_partial]; auto.
+        -- intros k. rewrite (get_pd S p false _ n k Hs). specialize (Hw k).
+           destruct (alookup pair_eqb (Pair v1 v2) (d_p2 ds)) as [q|]; cbn [omap oget apply_partial] in *; auto.
+    + (* Wait *)
+      split.
+      * destruct (alookup pair_eqb (Pair v1 v2) (d_p2 ds)) as [q|]; cbn [omap opshaped apply_partial apply]; auto.
+      * intros k. specialize (Hw k). destruct (alookup pair_eqb (Pair v1 v2) (d_p2 ds)) as [q|]; cbn [omap oget apply_partial apply] in *; auto.
 Qed.
 
 End Exact2.
